@@ -328,6 +328,11 @@ func genHist(r *core.Rand, tier string) core.Case {
 				secret = r.Bytes(r.Range(1, 40))
 			}
 		}
+		if r.Chance(40) {
+			// a call that must FAIL, made with the secret the buffer holds now, between the valid
+			// calls: a failed call must leave nothing behind
+			lines = append(lines, genFailing(r, secret))
+		}
 		decSecret := secret
 		if r.Chance(30) {
 			decSecret = prev
@@ -353,6 +358,95 @@ func genHist(r *core.Rand, tier string) core.Case {
 		}
 	}
 	return core.Case{Lines: lines, Tag: "history"}
+}
+
+var failingKinds = []string{"dec-cbc-garbage", "dec-cbc-badpad", "dec-cbc-short", "dec-gcm-badtag", "dec-gcm-badad", "dec-gcm-oddhex",
+	"raw-dec-gcm-short", "dec-stream-short", "dec-stream-badmagic", "dec-stream-readerr", "enc-stream-readerr", "enc-stream-werr0", "enc-stream-werr1", "enc-stream-werr2", "dec-stream-werr"}
+
+func mkFailing(kind string, secret, salt, pt []byte) string {
+	rawC := refCBCEnvelope(salt, secret, pt)
+	rawG := refGCMEnvelope(salt, secret, []byte("ad"), pt)
+	st := refStream(salt, secret, append(append([]byte{}, pt...), 1, 2, 3))
+	switch kind {
+	case "dec-cbc-garbage":
+		return fmt.Sprintf("dec-cbc bb %s %s", hx(secret), hx([]byte("!!not base64!!")))
+	case "dec-cbc-badpad":
+		x := append([]byte{}, rawC...)
+		x[len(x)-17] ^= 0x40 // garbles the last plaintext block's padding with overwhelming probability
+		x[len(x)-1] ^= 0x01
+		return fmt.Sprintf("raw-dec-cbc 0 bb %s %s", hx(secret), hx(x[:len(x)/16*16]))
+	case "dec-cbc-short":
+		return fmt.Sprintf("raw-dec-cbc 1 bb %s %s", hx(secret), hx(rawC[:16]))
+	case "dec-gcm-badtag":
+		x := append([]byte{}, rawG...)
+		x[len(x)-1] ^= 1
+		return fmt.Sprintf("dec-gcm bb %s 6164 %s", hx(secret), hx([]byte(hex.EncodeToString(x))))
+	case "dec-gcm-badad":
+		return fmt.Sprintf("dec-gcm bb %s 6165 %s", hx(secret), hx([]byte(hex.EncodeToString(rawG))))
+	case "dec-gcm-oddhex":
+		return fmt.Sprintf("dec-gcm bb %s 6164 %s", hx(secret), hx([]byte(hex.EncodeToString(rawG) + "0")))
+	case "raw-dec-gcm-short":
+		return fmt.Sprintf("raw-dec-gcm 1 bb %s 6164 %s", hx(secret), hx(rawG[:20]))
+	case "dec-stream-short":
+		return fmt.Sprintf("dec-stream bb %s g:3,3:0:0 - %s", hx(secret), hx(st[:11]))
+	case "dec-stream-badmagic":
+		x := append([]byte{}, st...)
+		x[3] ^= 0x20
+		return fmt.Sprintf("dec-stream bb %s g:-:1:0 - %s", hx(secret), hx(x))
+	case "dec-stream-readerr":
+		return fmt.Sprintf("dec-stream bb %s g:16,1:0:1 - %s", hx(secret), hx(st))
+	case "enc-stream-readerr":
+		return fmt.Sprintf("enc-stream bb %s %s g:2:0:1 - %s", hx(salt), hx(secret), hx(append(append([]byte{}, pt...), 9)))
+	case "enc-stream-werr0", "enc-stream-werr1", "enc-stream-werr2":
+		return fmt.Sprintf("enc-stream bb %s %s g:4:0:0 %c %s", hx(salt), hx(secret), kind[len(kind)-1], hx(append(append([]byte{}, pt...), 9)))
+	}
+	return fmt.Sprintf("dec-stream bb %s g:16,2:0:0 0 %s", hx(secret), hx(st))
+}
+
+func genFailing(r *core.Rand, secret []byte) string {
+	return mkFailing(failingKinds[r.Intn(len(failingKinds))], secret, r.Bytes(8), r.Bytes(genLen(r)))
+}
+
+// ---------- arena stream: all arguments of a call are windows of one arena (impl, header `arena`)
+
+// genArena: 1-5 calls, mostly with []byte arguments (they are passed by reference); where each
+// argument sits in the arena is derived by impl from the text of the line.  Secrets are short
+// ("hunter2"-like) as often as long, so that plaintexts and additional data regularly lie within
+// a few bytes behind the secret.
+func genArena(r *core.Rand, tier string) core.Case {
+	lines := []string{"@ C09 arena"}
+	n := r.Range(1, 5)
+	for i := 0; i < n; i++ {
+		ty := []string{"bb", "bb", "sb", "bs", "ss"}[r.Intn(5)]
+		secret := r.Bytes(r.Range(1, 12))
+		if r.Chance(30) {
+			secret = genSecret(r)
+		}
+		salt, pt, ad := r.Bytes(8), r.Bytes(genLen(r)), r.Bytes(r.Intn(2)*r.Range(1, 20))
+		switch r.Pick(16, 8, 12, 8, 14, 6, 10, 6, 10, 10) {
+		case 0:
+			lines = append(lines, fmt.Sprintf("enc-cbc %s %s %s %s", ty, hx(salt), hx(secret), hx(pt)))
+		case 1:
+			lines = append(lines, fmt.Sprintf("raw-enc-cbc %s %s %s %s", ty, hx(salt), hx(secret), hx(pt)))
+		case 2:
+			lines = append(lines, fmt.Sprintf("dec-cbc %s %s %s", ty, hx(secret), hx([]byte(base64.StdEncoding.EncodeToString(refCBCEnvelope(salt, secret, pt))))))
+		case 3:
+			lines = append(lines, fmt.Sprintf("raw-dec-cbc %d %s %s %s", r.Intn(2), ty, hx(secret), hx(refCBCEnvelope(salt, secret, pt))))
+		case 4:
+			lines = append(lines, fmt.Sprintf("enc-gcm %s %s %s %s %s", ty, hx(salt), hx(secret), hx(ad), hx(pt)))
+		case 5:
+			lines = append(lines, fmt.Sprintf("raw-enc-gcm %s %s %s %s %s", ty, hx(salt), hx(secret), hx(ad), hx(pt)))
+		case 6:
+			lines = append(lines, fmt.Sprintf("dec-gcm %s %s %s %s", ty, hx(secret), hx(ad), hx([]byte(hex.EncodeToString(refGCMEnvelope(salt, secret, ad, pt))))))
+		case 7:
+			lines = append(lines, fmt.Sprintf("raw-dec-gcm %d %s %s %s %s", r.Intn(2), ty, hx(secret), hx(ad), hx(refGCMEnvelope(salt, secret, ad, pt))))
+		case 8:
+			lines = append(lines, fmt.Sprintf("enc-stream %s %s %s %s - %s", ty, hx(salt), hx(secret), []string{"w", "g:-:1:0", "g:3,1:0:0"}[r.Intn(3)], hx(pt)))
+		case 9:
+			lines = append(lines, fmt.Sprintf("dec-stream %s %s %s - %s", ty, hx(secret), []string{"b", "g:-:1:0", "g:5,11,2:0:0"}[r.Intn(3)], hx(refStream(salt, secret, pt))))
+		}
+	}
+	return core.Case{Lines: lines, Tag: "arena"}
 }
 
 // ---------- magnitude stream: every length in a window
@@ -404,6 +498,8 @@ func gen(r *core.Rand, tier string) core.Case {
 	switch {
 	case r.Chance(10):
 		return genHist(r, tier)
+	case r.Chance(12):
+		return genArena(r, tier)
 	case r.Chance(12) || (tier == "thorough" && r.Chance(15)):
 		return genMagnitude(r, tier)
 	}
@@ -594,6 +690,29 @@ func corpus() []core.Case {
 		for _, b := range ops {
 			cs = append(cs, core.Case{Lines: []string{"@ C09 hist", mk(a, s1, s1), mk(b, s2, s2), mk(b, s2, s1)}, Tag: "history"})
 		}
+	}
+	// AFTER A FAILURE, enumerated: valid call under secret 1, a failing call with secret 2 (buffer
+	// overwritten in place), then valid calls under secret 2 — every kind of failure × every entry point
+	for fi, fk := range failingKinds {
+		b := ops[fi%len(ops)]
+		cs = append(cs, core.Case{Lines: []string{"@ C09 hist", mk(ops[(fi+1)%len(ops)], s1, s1), mkFailing(fk, s2, salt, pt),
+			mk(b, s2, s2), mk("dec-gcm", s2, s2), mk("enc-cbc", s2, s2), mkFailing(fk, s1, salt, pt), mk("dec-cbc", s1, s1), mk("dec-gcm", s1, s2)}, Tag: "history"})
+	}
+	// ARENA LAYOUTS, enumerated: every entry point with a short secret ("hunter2"), 30 different salts
+	// so that the line text (hence the placement impl derives from it) varies
+	for v := 0; v < 30; v++ {
+		sv := seqBytes(8, byte(7*v))
+		h2 := []byte("hunter2")
+		p := []byte("plaintext")
+		cs = append(cs, core.Case{Lines: []string{"@ C09 arena",
+			fmt.Sprintf("enc-cbc bb %s %s %s", hx(sv), hx(h2), hx(p)),
+			fmt.Sprintf("enc-gcm bb %s %s 6164 %s", hx(sv), hx(h2), hx(p)),
+			fmt.Sprintf("enc-stream bb %s %s w - %s", hx(sv), hx(h2), hx(p)),
+			fmt.Sprintf("dec-cbc bb %s %s", hx(h2), hx([]byte(base64.StdEncoding.EncodeToString(refCBCEnvelope(sv, h2, p))))),
+			fmt.Sprintf("raw-dec-cbc %d bb %s %s", v%2, hx(h2), hx(refCBCEnvelope(sv, h2, p))),
+			fmt.Sprintf("dec-gcm bb %s 6164 %s", hx(h2), hx([]byte(hex.EncodeToString(refGCMEnvelope(sv, h2, []byte("ad"), p))))),
+			fmt.Sprintf("raw-dec-gcm %d bb %s 6164 %s", v%2, hx(h2), hx(refGCMEnvelope(sv, h2, []byte("ad"), p))),
+			fmt.Sprintf("dec-stream bb %s g:-:1:0 - %s", hx(h2), hx(refStream(sv, h2, p)))}, Tag: "arena"})
 	}
 	// OpenSSL: `printf 'hello' | openssl enc -aes-256-cbc -md md5 -a -pass pass:whaterror -S a1a2a3a4a5a6a7a8`
 	// produces this message (salt a1..a8): checked against the reference derivation at start-up
